@@ -171,6 +171,15 @@ pub fn set_slot_hist(root: &Pos, path: &[Mv]) {
     set_slot(5, &v);
 }
 
+/// a chain-sweep line (C19): family (0 = LONG, 1 = REP), index, a, b, length bound
+pub fn set_slot_chainline(family: u8, idx: u16, a: u16, b: u16, max: u16) {
+    let mut v = vec![family];
+    for x in [idx, a, b, max] {
+        v.extend_from_slice(&x.to_le_bytes());
+    }
+    set_slot(6, &v);
+}
+
 pub fn set_slot_raw(r: &RawPos) {
     let p = Pos {
         b: r.b,
